@@ -618,12 +618,15 @@ package eventbus
 //@   props C16
 //@   requires r != nil
 //@   at unlock:upcastRegistry.mu assert [C16.clear] forall t string :: len(r.upcasters[t]) == 0
+//@   at unlock:upcastRegistry.mu assert [C16.clear.edges] forall a string, b string :: {GR(r)[a][b]} !GR(r)[a][b]
 
 //@ func (*upcastRegistry).clearType
 //@   props C16
 //@   requires r != nil
 //@   at unlock:upcastRegistry.mu assert [C16.clearType] len(r.upcasters[eventType]) == 0 &&
 //@        (forall t string :: t != eventType ==> r.upcasters[t] == acq(r.upcasters[t]))
+//@   at unlock:upcastRegistry.mu assert [C16.clearType.edges] forall a string, b string :: {GR(r)[a][b]} GR(r)[a][b] ==> a != eventType && acq(GR(r))[a][b]
+//@   at unlock:upcastRegistry.mu assert [C16.clearType.sub] isSubgraph(acq(GR(r)), GR(r))
 
 //@ func RegisterUpcastFunc
 //@   props C16
